@@ -152,12 +152,27 @@ var stories = []story{
 			s.do(g, a, a.renewing(a.leased, dst, uint16(r.Intn(2))<<15), arp...)
 		}
 	}, 2},
+	{"long-lease", func(r *rand.Rand, s *srvRun, g *srvGen) {
+		// a lease duration around 2^31 s / at 2^32-1 s (set in runStory): acknowledged, renewed, and still the holder's a month later
+		a, b := g.clients[0], g.clients[1]
+		s.do(g, a, a.discover(0, 0))
+		s.do(g, a, a.selecting(a.offered, s.cfg.selfIP, 0))
+		s.advance(time.Duration(5+r.Intn(20)) * time.Second)
+		s.do(g, a, a.renewing(a.leased, s.cfg.selfIP, 0))
+		s.do(g, b, b.discover(a.leased, 0))
+		s.advance(720 * time.Hour)
+		s.do(g, b, b.discover(a.leased, 0))
+		s.do(g, a, a.renewing(a.leased, s.cfg.selfIP, 0))
+	}, 1},
 }
 
 func runStory(t *testing.T, c *caseWriter, tags string, st story, seedv int64) {
 	synctest.Test(t, func(t *testing.T) {
 		r := rand.New(rand.NewSource(seedv))
 		cfg := storyCfg(r, st.pool)
+		if st.name == "long-lease" {
+			cfg.lease = []time.Duration{(1<<31 - 1) * time.Second, (1 << 31) * time.Second, 3000000000 * time.Second, (1<<32 - 1) * time.Second}[r.Intn(4)]
+		}
 		g := &srvGen{r: r, cfg: cfg}
 		for a := cfg.rangeB; a <= cfg.rangeE; a++ {
 			g.pool = append(g.pool, a)
